@@ -602,49 +602,49 @@ const checkpointFloorDoc = "the checkpoint floor of a reorganisation is the last
 
 // checkpointFloor: see checkpointFloorDoc (shared by C02.V2 and C01.V5).
 func (c *Ctx) checkpointFloor() {
-		fn := c.fn(fnHandleHeaders)
-		findPrev := c.method("neutrino", "blockManager", "findPreviousHeaderCheckpoint")
-		back := c.method("headerlist", "Chain", "Back")
-		nodeHeight := c.field("headerlist", "Node", "Height")
-		cpHeight := c.field(pChaincfg, "Checkpoint", "Height")
-		n := 0
-		for _, in := range find(fn, callTo(findPrev)) {
-			// only the call whose result feeds the floor comparison
-			v := in.(ssa.Value)
-			feeds := false
-			ir.Instrs(fn, func(x ssa.Instruction) {
-				b, ok := x.(*ssa.BinOp)
-				if !ok || (b.Op != token.LSS && b.Op != token.GEQ && b.Op != token.GTR && b.Op != token.LEQ) {
-					return
-				}
-				for _, op := range []ssa.Value{b.X, b.Y} {
-					if loadsField(cpHeight)(op) && ir.DerivesFrom(op, func(y ssa.Value) bool { return y == v }) {
-						feeds = true
-					}
-				}
-			})
-			if !feeds {
-				continue
+	fn := c.fn(fnHandleHeaders)
+	findPrev := c.method("neutrino", "blockManager", "findPreviousHeaderCheckpoint")
+	back := c.method("headerlist", "Chain", "Back")
+	nodeHeight := c.field("headerlist", "Node", "Height")
+	cpHeight := c.field(pChaincfg, "Checkpoint", "Height")
+	n := 0
+	for _, in := range find(fn, callTo(findPrev)) {
+		// only the call whose result feeds the floor comparison
+		v := in.(ssa.Value)
+		feeds := false
+		ir.Instrs(fn, func(x ssa.Instruction) {
+			b, ok := x.(*ssa.BinOp)
+			if !ok || (b.Op != token.LSS && b.Op != token.GEQ && b.Op != token.GTR && b.Op != token.LEQ) {
+				return
 			}
-			n++
-			a := argsOf(in)[0]
-			isTipHeight := func(v ssa.Value) bool {
-				ld, ok := ir.Strip(v).(*ssa.UnOp)
-				if !ok || ld.Op != token.MUL {
-					return false
+			for _, op := range []ssa.Value{b.X, b.Y} {
+				if loadsField(cpHeight)(op) && ir.DerivesFrom(op, func(y ssa.Value) bool { return y == v }) {
+					feeds = true
 				}
-				fa, ok := ld.X.(*ssa.FieldAddr)
-				return ok && ir.FieldOfAddr(fa) == nodeHeight && ir.DerivesFrom(fa.X, valIsCallTo(back))
 			}
-			// findPreviousHeaderCheckpoint(h) is the last checkpoint strictly
-			// below h (C01.G6): the floor "last checkpoint at or below the tip"
-			// is therefore asked for with tip height + 1
-			coef, _, k, okLin := linTerms(a, nil, isTipHeight)
-			okv := okLin && coef[0] == 1 && k == 1
-			c.verdict(okv, c.nm(fn)+" | floor = findPreviousHeaderCheckpoint(headerList.Back().Height + 1)", c.at(in),
-				"argument is the height of headerList.Back() plus one", fmt.Sprintf("argument of findPreviousHeaderCheckpoint is not (height of the current tail of headerList) + 1 (tail height x%d, constant %+d, other terms: %v): with the tail height itself a tip sitting exactly on a checkpoint does not protect that checkpoint (the helper is strict); with any other value the floor is not the last checkpoint the accepted chain has reached", coef[0], k, !okLin), c.at(in))
+		})
+		if !feeds {
+			continue
 		}
-		if n == 0 {
-			c.fail(c.nm(fn)+" | floor = findPreviousHeaderCheckpoint(headerList.Back().Height + 1)", c.P.Pos(fn.Pos()), "no findPreviousHeaderCheckpoint result feeds a comparison with the fork height")
+		n++
+		a := argsOf(in)[0]
+		isTipHeight := func(v ssa.Value) bool {
+			ld, ok := ir.Strip(v).(*ssa.UnOp)
+			if !ok || ld.Op != token.MUL {
+				return false
+			}
+			fa, ok := ld.X.(*ssa.FieldAddr)
+			return ok && ir.FieldOfAddr(fa) == nodeHeight && ir.DerivesFrom(fa.X, valIsCallTo(back))
 		}
+		// findPreviousHeaderCheckpoint(h) is the last checkpoint strictly
+		// below h (C01.G6): the floor "last checkpoint at or below the tip"
+		// is therefore asked for with tip height + 1
+		coef, _, k, okLin := linTerms(a, nil, isTipHeight)
+		okv := okLin && coef[0] == 1 && k == 1
+		c.verdict(okv, c.nm(fn)+" | floor = findPreviousHeaderCheckpoint(headerList.Back().Height + 1)", c.at(in),
+			"argument is the height of headerList.Back() plus one", fmt.Sprintf("argument of findPreviousHeaderCheckpoint is not (height of the current tail of headerList) + 1 (tail height x%d, constant %+d, other terms: %v): with the tail height itself a tip sitting exactly on a checkpoint does not protect that checkpoint (the helper is strict); with any other value the floor is not the last checkpoint the accepted chain has reached", coef[0], k, !okLin), c.at(in))
+	}
+	if n == 0 {
+		c.fail(c.nm(fn)+" | floor = findPreviousHeaderCheckpoint(headerList.Back().Height + 1)", c.P.Pos(fn.Pos()), "no findPreviousHeaderCheckpoint result feeds a comparison with the fork height")
+	}
 }
